@@ -21,7 +21,7 @@ Extraction "../driver/model.ml"
   Search.empty_index Search.new_index Search.ix_add Search.ix_remove Search.ix_update Search.count_folder
   SrvReq.srv_step
   Paths.sanitize_file_path
-  Crash.open_kind Crash.open_kind_rev
+  Crash.open_kind Crash.open_kind_rev Crash.steps_create Crash.steps_update Crash.steps_delete Crash.run
   Auth.authorize
   Upgrade.import Upgrade.db_log
   Taint.split_event Taint.join
